@@ -1725,3 +1725,229 @@ Proof.
   - intros k Hk Hr. rewrite <- F1 in *. apply C; [eapply reject_keys_sub; eauto|congruence].
   - intros id x Lk. destruct (phase1_no_streams _ _ _ _ I' Hp' Lk).
 Qed.
+
+Lemma ack_sinv f s g s' r :
+  SInv s g -> NoDup (keys s.(send)) -> do_ack f s = Some (s', r) -> SInv s' g.
+Proof.
+  intros I N F. unfold do_ack, ok in F. destruct f as [[[id a] b] fin].
+  destruct (lookup id (send s)) as [[x|]|] eqn:Lk; try (injection F as <- _; exact I).
+  destruct (s_state x =? 3); [injection F as <- _; exact I|].
+  destruct (b <? a); [discriminate|]. destruct (unacked_data s <? b - a); [discriminate|].
+  destruct (sb_ack a b x) as [x1|] eqn:SA; [|discriminate].
+  destruct (sb_ack_credit _ _ _ _ SA) as (_ & _ & Es).
+  set (s0 := set_unacked_data (unacked_data s - (b - a)) s) in *.
+  assert (I0 : SInv s0 g) by (eapply SInv_ext; [|exact I]; subst s0; kcore_eq0).
+  assert (L0 : lookup id (send s0) = Some (Some x)) by (subst s0; autorewrite with st; exact Lk).
+  assert (Hput : forall y, (s_state y <> 0 -> s_state x <> 0) -> SInv (put id y s0) g).
+  { intros y Hy. eapply sinv_kq; [exact I0|]. eapply kq_put; [exact L0|exact Hy]. }
+  destruct ((s_state x1 =? 1) || (s_state x1 =? 2)) eqn:E12.
+  - destruct (((s_state x1 =? 2) || fin) && _).
+    + destruct (stream_freed _) as [s2|] eqn:SF; [|discriminate]. injection F as <- _.
+      unfold stream_freed in SF. destruct (send_streams _ <? 1); [discriminate|]. injection SF as <-.
+      destruct (sinv_remove s0 g id x I0 ltac:(subst s0; autorewrite with st; exact N) L0 ltac:(lia)) as (_ & Hr).
+      eapply SInv_ext; [|exact Hr]. subst s0. kcore_eq0.
+    + injection F as <- _. apply Hput. autorewrite with st. intros _. lia.
+  - injection F as <- _. apply Hput. rewrite Es. auto.
+Qed.
+
+Lemma reset_acked_sinv id s g s' r :
+  SInv s g -> NoDup (keys s.(send)) -> do_reset_acked id s = Some (s', r) -> SInv s' g.
+Proof.
+  intros I N F. unfold do_reset_acked, ok in F.
+  destruct (lookup id (send s)) as [[x|]|] eqn:Lk; try (injection F as <- _; exact I).
+  destruct (s_state x =? 3) eqn:E3; [|injection F as <- _; exact I].
+  destruct (stream_freed _) as [s2|] eqn:SF; [|discriminate]. injection F as <- _.
+  unfold stream_freed in SF. destruct (send_streams _ <? 1); [discriminate|]. injection SF as <-.
+  destruct (sinv_remove s g id x I N Lk ltac:(lia)) as (_ & Hr).
+  eapply SInv_ext; [|exact Hr]. kcore_eq0.
+Qed.
+
+Lemma hinv_ghost' L s g g' : (g_phase g' <> 2 -> g_phase g <> 2) -> HInvL L s g -> HInvL L s g'.
+Proof. intros Hp [A B C D]. constructor; auto. intros Hq. apply D. apply Hp. exact Hq. Qed.
+
+(* ------------------------------------------------------------------------------------------ *)
+(** * The three invariants together *)
+
+Record Full (s : State) (g : Ghost) : Prop := mkFull {
+  f_inv : Inv s g; f_hinv : HInv s g; f_sinv : SInv s g }.
+
+Lemma hs_ghost s' g g' :
+  HInv s' g -> SInv s' g -> (g_phase g' <> 2 -> g_phase g <> 2) -> HInv s' g' /\ SInv s' g'.
+Proof.
+  intros H S Hp. split; [eapply hinv_ghost'; eauto|eapply sinv_ghost; eauto].
+Qed.
+
+Lemma hinv_log s s' g : HInvL (log s) s' g -> log s' = log s -> HInv s' g.
+Proof. unfold HInv. intros H E. rewrite E. exact H. Qed.
+
+Ltac ph_tac := gcbn; repeat match goal with |- context [if ?c then _ else _] => destruct c eqn:? end; lia.
+
+Lemma gstep_hs s g op :
+  Full s g -> HInv (fst (gstep (s, g) op)) (snd (gstep (s, g) op))
+              /\ SInv (fst (gstep (s, g) op)) (snd (gstep (s, g) op)).
+Proof.
+  intros [I H S]. pose proof (i_phase _ _ I) as Hph. pose proof (i_nodup _ _ I) as N.
+  pose proof (i_side _ _ I) as Hsd.
+  assert (Hstay : HInv s g /\ SInv s g) by auto.
+  destruct (g_phase g =? 1) eqn:P1.
+  { unfold gstep, adm. rewrite P1.
+    destruct (arg op 0 =? 1) eqn:C1; cbn [andb]; [|exact Hstay].
+    destruct (params_valid (params_of op)) eqn:V; [|exact Hstay].
+    assert (Hc : arg op 0 = 1) by lia. unfold apply, gupd. rewrite Hc. red_eqb. cbv iota.
+    rewrite V, P1. cbn [fst snd ok]. split.
+    - eapply params_hinv; eauto; try lia; try reflexivity.
+    - eapply sinv_ghost; [|eapply SInv_ext; [|exact S]].
+      + gcbn. lia.
+      + destruct (i_early _ _ I ltac:(lia)) as (M1 & _).
+        unfold kcore. autorewrite with sp. rewrite (set_remote_limits_id _ _ _ N M1). reflexivity. }
+  assert (Hp1 : g_phase g <> 1) by lia.
+  destruct (arg op 0 =? 21) eqn:C21.
+  { assert (Hc : arg op 0 = 21) by lia. op_case Hc. rewrite P1.
+    destruct ((g_phase g =? 0) && (side s =? 0)) eqn:A; [|exact Hstay].
+    destruct (do_retry s) as [s'|] eqn:R; cbn [fst snd ok]; [|exact Hstay].
+    apply (hs_ghost s' g); [eapply retry_hinv; eauto; lia|eapply sinv_kq; [exact S|apply retry_kq; exact R]|ph_tac]. }
+  destruct (arg op 0 =? 2) eqn:C2.
+  { assert (Hc : arg op 0 = 2) by lia. op_case Hc. rewrite P1.
+    destruct (do_open (arg op 1) s) as [[s' r]|] eqn:O; cbn [fst snd]; [|exact Hstay].
+    unfold do_open, ok in O. pose proof (norm_dir_range (arg op 1)) as Hd.
+    destruct (i_cnt _ _ I (norm_dir (arg op 1)) Hd) as (Hn & _).
+    destruct (get_max (norm_dir (arg op 1)) s <=? get_next (norm_dir (arg op 1)) s) eqn:E.
+    - injection O as <- _. apply (hs_ghost _ g); [|eapply SInv_ext; [|exact S]; kcore_eq0|ph_tac].
+      apply (hinv_log s); [eapply HInvL_ext; [|exact H]; hcore_eq|unfold set_blocked; destr_if; autorewrite with st; reflexivity].
+    - destruct (lookup _ (send s)) eqn:L; [discriminate|]. injection O as <- _.
+      apply (hs_ghost _ g); [| |ph_tac].
+      + apply (hinv_log s); [|unfold set_next; destr_if; autorewrite with st; reflexivity].
+        eapply HInvL_ext; [|apply (open_hinv (log s) s g (norm_dir (arg op 1)) H I Hd L)]. hcore_eq.
+      + eapply SInv_ext; [|apply (sinv_open s g (norm_dir (arg op 1)) S Hsd Hd ltac:(lia) L)].
+        unfold kcore, set_next. destr_if; autorewrite with st; reflexivity. }
+  destruct (arg op 0 =? 9) eqn:C9.
+  { assert (Hc : arg op 0 = 9) by lia. op_case Hc. rewrite P1.
+    destruct (do_transmit (arg op 1) s) as [[s' r]|] eqn:O; cbn [fst snd]; [|exact Hstay].
+    apply (hs_ghost s' g); [eapply transmit_hinv; eauto|eapply sinv_kq; [exact S|eapply transmit_kq; eauto]|ph_tac]. }
+  destruct (arg op 0 =? 13) eqn:C13.
+  { assert (Hc : arg op 0 = 13) by lia. op_case Hc. rewrite P1. cbn [fst snd ok].
+    apply (hs_ghost _ g); [|eapply SInv_ext; [|exact S]; kcore_eq0|ph_tac].
+    apply (hinv_log s); [eapply HInvL_ext; [|exact H]; hcore_eq|autorewrite with st; reflexivity]. }
+  destruct (arg op 0 =? 15) eqn:C15.
+  { assert (Hc : arg op 0 = 15) by lia. op_case Hc. rewrite P1.
+    destruct (do_poll s) as [[s' r]|] eqn:O; cbn [fst snd]; [|exact Hstay].
+    destruct (poll_hinv _ _ _ _ _ H I O) as (A & B).
+    apply (hs_ghost s' g); [apply (hinv_log s); assumption|eapply sinv_kq; [exact S|eapply poll_kq; eauto]|ph_tac]. }
+  destruct (arg op 0 =? 19) eqn:C19.
+  { assert (Hc : arg op 0 = 19) by lia. op_case Hc. rewrite P1.
+    destruct (observe s); cbn [fst snd ok]; [|exact Hstay].
+    apply (hs_ghost s g); [exact H|exact S|ph_tac]. }
+  destruct (arg op 0 =? 3) eqn:C3.
+  { assert (Hc : arg op 0 = 3) by lia. op_case Hc. rewrite P1.
+    destruct (app_ok s (arg op 1) && (0 <=? arg op 2)) eqn:A; [|exact Hstay].
+    destruct (do_write (arg op 1) (arg op 2) s) as [[s' r]|] eqn:O; cbn [fst snd]; [|exact Hstay].
+    destruct (write_hinv _ _ _ _ _ _ _ H I O ltac:(lia)) as (A1 & B1).
+    apply (hs_ghost s' g); [apply (hinv_log s); assumption|eapply sinv_kq; [exact S|eapply write_kq; eauto]|ph_tac]. }
+  destruct (arg op 0 =? 4) eqn:C4.
+  { assert (Hc : arg op 0 = 4) by lia. op_case Hc. rewrite P1.
+    destruct (app_ok s (arg op 1) && (0 <=? arg op 2)) eqn:A; [|exact Hstay].
+    destruct (do_finish (arg op 1) s) as [[s' r]|] eqn:O; cbn [fst snd]; [|exact Hstay].
+    destruct (finish_hinv _ _ _ _ _ _ H O) as (A1 & B1).
+    assert (Ha : app_ok s (arg op 1) = true) by (destruct (app_ok s (arg op 1)); [reflexivity|discriminate]).
+    apply (hs_ghost s' g); [apply (hinv_log s); assumption|eapply finish_sinv; eauto|ph_tac]. }
+  destruct (arg op 0 =? 5) eqn:C5.
+  { assert (Hc : arg op 0 = 5) by lia. op_case Hc. rewrite P1.
+    destruct (app_ok s (arg op 1) && (0 <=? arg op 2)) eqn:A; [|exact Hstay].
+    destruct (do_reset (arg op 1) s) as [[s' r]|] eqn:O; cbn [fst snd]; [|exact Hstay].
+    destruct (reset_hinv _ _ _ _ _ _ H O) as (A1 & B1).
+    assert (Ha : app_ok s (arg op 1) = true) by (destruct (app_ok s (arg op 1)); [reflexivity|discriminate]).
+    apply (hs_ghost s' g); [apply (hinv_log s); assumption|eapply reset_sinv; eauto|ph_tac]. }
+  destruct (arg op 0 =? 1) eqn:C1.
+  { assert (Hc : arg op 0 = 1) by lia. op_case Hc. rewrite P1.
+    destruct ((g_phase g =? 0) && params_valid (params_of op) && pge_params (params_of op) (g_par g)) eqn:A; [|exact Hstay].
+    assert (V : params_valid (params_of op) = true) by (destruct (params_valid (params_of op)); [reflexivity|rewrite Bool.andb_false_r in A; discriminate]).
+    rewrite V. cbn [fst snd ok]. split.
+    - eapply params_hinv; eauto; try lia; try reflexivity.
+    - eapply sinv_ghost; [|eapply SInv_ext; [|exact S]].
+      + gcbn. lia.
+      + destruct (i_early _ _ I ltac:(lia)) as (M1 & _).
+        unfold kcore. autorewrite with sp. rewrite (set_remote_limits_id _ _ _ N M1). reflexivity. }
+  destruct (arg op 0 =? 14) eqn:C14.
+  { assert (Hc : arg op 0 = 14) by lia. op_case Hc. rewrite P1.
+    destruct (g_phase g =? 0) eqn:P0; [|exact Hstay].
+    destruct (do_reject s) as [s'|] eqn:R; cbn [fst snd ok]; [|exact Hstay].
+    pose proof (reject_inv s g s' I ltac:(lia) R) as I'.
+    split; [eapply reject_hinv; eauto|eapply reject_sinv; eauto; lia]. }
+  destruct (arg op 0 =? 6) eqn:C6.
+  { assert (Hc : arg op 0 = 6) by lia. op_case Hc. rewrite P1.
+    destruct (is_varint (arg op 1)) eqn:A; [|exact Hstay]. cbn [fst snd ok].
+    apply (hs_ghost _ g); [|eapply SInv_ext; [|exact S]; unfold do_max_data; kcore_eq0|ph_tac].
+    apply (hinv_log s); [eapply HInvL_ext; [|exact H]; unfold do_max_data; hcore_eq|unfold do_max_data; autorewrite with st; reflexivity]. }
+  destruct (arg op 0 =? 7) eqn:C7.
+  { assert (Hc : arg op 0 = 7) by lia. op_case Hc. rewrite P1.
+    destruct ((0 <=? arg op 1) && (0 <=? arg op 2)) eqn:A; [|exact Hstay].
+    destruct (do_max_stream_data (arg op 1) (arg op 2) s) as [[s' r]|] eqn:O; cbn [fst snd]; [|exact Hstay].
+    destruct (max_stream_data_hinv _ _ _ _ _ _ _ H I O) as (A1 & B1).
+    apply (hs_ghost s' g); [apply (hinv_log s); assumption|eapply sinv_kq; [exact S|eapply max_stream_data_kq; eauto]|ph_tac]. }
+  destruct (arg op 0 =? 8) eqn:C8.
+  { assert (Hc : arg op 0 = 8) by lia. op_case Hc. rewrite P1.
+    destruct (0 <=? arg op 2) eqn:A; [|exact Hstay].
+    destruct (do_max_streams MAX_STREAM_COUNT_MODEL (arg op 1) (arg op 2) s) as [[s' r]|] eqn:O; cbn [fst snd]; [|exact Hstay].
+    unfold do_max_streams, ok in O.
+    assert (Hs' : hcore s' = hcore s /\ kcore s' = kcore s /\ log s' = log s).
+    { destr_if; injection O as <- _; repeat split; try reflexivity; try hcore_eq; try kcore_eq0;
+        unfold set_blocked, set_max; destr_if; autorewrite with st; reflexivity. }
+    destruct Hs' as (E1 & E2 & E3).
+    apply (hs_ghost s' g); [apply (hinv_log s); [eapply HInvL_ext; [symmetry; exact E1|exact H]|exact E3]
+                          |eapply SInv_ext; [symmetry; exact E2|exact S]|ph_tac]. }
+  destruct (arg op 0 =? 10) eqn:C10.
+  { assert (Hc : arg op 0 = 10) by lia. op_case Hc. rewrite P1.
+    destruct (do_log true (arg op 1) s) as [[s' r]|] eqn:O; cbn [fst snd]; [|exact Hstay].
+    unfold do_log, ok in O.
+    destruct (arg op 1 <? 0); [injection O as <- _; apply (hs_ghost s g); [exact H|exact S|ph_tac]|].
+    destruct (log_get (Z.to_nat (arg op 1)) (log s)) as [[f l]|] eqn:G;
+      [|injection O as <- _; apply (hs_ghost s g); [exact H|exact S|ph_tac]].
+    destruct f as [[[fid a] b] fin].
+    pose proof (hinv_ghost' _ _ _ (mkGhost 2 (g_par g) (g_md g) (g_msd g) (g_ms g) (g_closed g)) ltac:(cbn; lia) H) as H2.
+    destruct (ack_hinv _ _ _ _ _ _ _ _ _ _ _ G H2 N eq_refl O) as (A1 & B1).
+    split.
+    - eapply hinv_ghost'; [|unfold HInv; rewrite B1; exact A1]. ph_tac.
+    - eapply sinv_ghost; [|eapply (ack_sinv _ (set_log l s) g); [eapply SInv_ext; [|exact S]; kcore_eq0|autorewrite with st; exact N|exact O]].
+      ph_tac. }
+  destruct (arg op 0 =? 11) eqn:C11.
+  { assert (Hc : arg op 0 = 11) by lia. op_case Hc. rewrite P1.
+    destruct (do_log false (arg op 1) s) as [[s' r]|] eqn:O; cbn [fst snd]; [|exact Hstay].
+    unfold do_log, ok in O.
+    destruct (arg op 1 <? 0); [injection O as <- _; apply (hs_ghost s g); [exact H|exact S|ph_tac]|].
+    destruct (log_get (Z.to_nat (arg op 1)) (log s)) as [[f l]|] eqn:G;
+      [|injection O as <- _; apply (hs_ghost s g); [exact H|exact S|ph_tac]].
+    destruct f as [[[fid a] b] fin].
+    pose proof (hinv_ghost' _ _ _ (mkGhost 2 (g_par g) (g_md g) (g_msd g) (g_ms g) (g_closed g)) ltac:(cbn; lia) H) as H2.
+    destruct (lost_hinv _ _ _ _ _ _ _ _ _ _ _ G H2 eq_refl O) as (A1 & B1).
+    split.
+    - eapply hinv_ghost'; [|unfold HInv; rewrite B1; exact A1]. ph_tac.
+    - eapply sinv_ghost; [|eapply sinv_kq; [eapply SInv_ext; [|exact S]|eapply lost_kq; exact O]].
+      + ph_tac.
+      + kcore_eq0. }
+  destruct (arg op 0 =? 17) eqn:C17.
+  { assert (Hc : arg op 0 = 17) by lia. op_case Hc. rewrite P1.
+    destruct (do_reset_acked (arg op 1) s) as [[s' r]|] eqn:O; cbn [fst snd]; [|exact Hstay].
+    destruct (reset_acked_hinv _ _ _ _ _ _ H N O) as (A1 & B1).
+    apply (hs_ghost s' g); [apply (hinv_log s); assumption|eapply reset_acked_sinv; eauto|ph_tac]. }
+  destruct (arg op 0 =? 18) eqn:C18.
+  { assert (Hc : arg op 0 = 18) by lia. op_case Hc. rewrite P1.
+    destruct (do_accept (arg op 1) s) as [[s' r]|] eqn:O; cbn [fst snd]; [|exact Hstay].
+    unfold do_accept, ok in O.
+    destruct (norm_dir (arg op 1) =? 0); [|injection O as <- _; apply (hs_ghost s g); [exact H|exact S|ph_tac]].
+    destruct (next_remote_bi s =? next_reported_bi s); [injection O as <- _; apply (hs_ghost s g); [exact H|exact S|ph_tac]|].
+    injection O as <- _. split.
+    - eapply hinv_ghost'; [|apply (hinv_log s); [eapply HInvL_ext; [|exact H]; hcore_eq|autorewrite with st; reflexivity]].
+      ph_tac.
+    - eapply sinv_ghost; [|eapply SInv_ext; [|apply (sinv_accept s g S N Hsd)]].
+      + ph_tac.
+      + unfold kcore. autorewrite with st. reflexivity. }
+  destruct (arg op 0 =? 16) eqn:C16.
+  { assert (Hc : arg op 0 = 16) by lia. op_case Hc. rewrite P1.
+    destruct ((0 <=? arg op 1) && is_varint (arg op 2)) eqn:A; [|exact Hstay].
+    assert (V : is_varint (arg op 2) = true) by (destruct (is_varint (arg op 2)); [reflexivity|rewrite Bool.andb_false_r in A; discriminate]).
+    rewrite V. cbn [fst snd ok].
+    destruct (stop_sending_hinv (log s) s g (arg op 1) (arg op 2) H) as (A1 & B1).
+    apply (hs_ghost _ g); [apply (hinv_log s); assumption|eapply sinv_kq; [exact S|apply stop_sending_kq]|ph_tac]. }
+  unfold gstep, adm, is_neutral, is_app. rewrite P1, C21, C2, C9, C13, C15, C19, C3, C4, C5, C1, C14, C6, C7, C8, C10, C11, C17, C18, C16.
+  cbn [orb]. exact Hstay.
+Qed.
